@@ -100,20 +100,23 @@ PROPS["C16"] = dict(
 )
 
 PROPS["C02"] = dict(
-    level_text="(being built) Theorems (Props/C02.lean) over Model/StreamMap.lean + Model/Conn.lean; differential run at hook level (ResponseHandlerMap op sequences, full 32768-id exhaustion) and end-to-end (real router over an in-memory stream under a deterministic schedule).",
-    level_note="Trusted: Lean kernel; hand-written models Model/StreamMap.lean, Model/Conn.lean tied by the differential harness.",
+    level_text="Theorems (Props/C02.lean) prove, for EVERY event sequence of the connection model (inductive invariant `Inv` over `step`, lifted to all runs) and the full 32768-id space: the bitmap allocator returns the least free id and fails iff all ids are used, `free` clears exactly one bit (bit level refines the abstract set); two unanswered requests never share a stream id (including after cancellation before enqueue / before write / after write / after the response); the reader's lookup for an answer the server owes finds exactly the handler of the request it answers (or the orphan mark) and never `Missing`; a frame on a stream the server does not owe never reaches a handler; any caller that completes with a frame holds the frame produced for its own request; the Rust assert in `allocate` cannot fire; exhaustion gives UnableToAllocStreamId and leaves the map unchanged. The model is tied to connection.rs by a differential run at hook level (ResponseHandlerMap op sequences: exhaustive over 3 request ids / 3 streams up to length 5, random, full 32768-id exhaustion) and end to end (the real router/reader/writer/orphaner over an in-memory stream, requests through the real send_request, under a deterministic schedule that covers all four cancellation points, out-of-order answers, unsolicited frames, blocked writes), each with a model-independent oracle.",
+    level_note="Trusted: Lean kernel + {propext, Classical.choice, Quot.sound}; hand-written models Model/StreamMap.lean, Model/Conn.lean (tie = differential harness through cfg(scylla_verif) hooks StreamMap / RawConnection). Each critical section of reader/writer/orphaner is one atomic model step (they run on one task and never hold the map lock across an await); tokio scheduling, socket buffering and memory-model effects are outside the model. The abstract server answers only stream ids it has received, at most once each.",
     lean_modules=["ScyllaVerif.Props.C02"],
     rule="case = one operation sequence (hook level `map`, or end-to-end schedule `conn`); distinct case lines whose implementation output contains at least one routed response (`H<req>` / `ok:`) count as non-trivial",
     trivial=lambda c, o: not ("H" in o or "ok:" in o),
-    out_kind=lambda o: ("broken" if "broken=" in o and not o.endswith("broken=-") else "conn-ok") if "| srv=" in o else ("full" if "full" in o or "/0:" not in o and "A" in o else "map"),
+    out_kind=lambda o: (("broken:" + o.rsplit("broken=", 1)[1]) if not o.endswith("broken=-") else ("conn-ok" if "ok:" in o else "conn-no-answer")) if "| srv=" in o else ("map-full" if "full" in o else ("map-routed" if "H" in o else "map-other")),
     trusted=[
-        "Model/StreamMap.lean transcribes connection.rs:2296-2450 (HashMaps as association lists, orphan timestamps dropped); Model/Conn.lean transcribes connection.rs:136-223, 1541-1786 with each critical section of reader/writer/orphaner as one atomic step (they run on one task and never hold the map lock across an await)",
-        "abstract server: answers only stream ids it has received, at most once each; tokio mpsc/oneshot: FIFO, close-on-drop",
+        "Model/StreamMap.lean transcribes connection.rs:2296-2450 (HashMaps as association lists observed through get/erase/insert, orphan timestamps dropped); Model/Conn.lean transcribes connection.rs:136-223, 1541-1786 with each critical section of reader/writer/orphaner as one atomic step",
+        "abstract server: answers only stream ids it has received, at most once each; tokio mpsc/oneshot: FIFO, close-on-drop; the bounded submit channel is modelled by the `submitFull`/`enqueue` events",
+        "end-to-end schedules are deterministic (current-thread runtime, futures polled by the test, settle = 16 yields); the driver Drive/C02.lean maps each schedule operation to model events",
     ],
-    assumptions=[],
+    assumptions=[
+        "the server does not answer a stream id before it has received the request frame carrying it (a frame on an id that is allocated but still in the writer's buffer is outside the property)",
+    ],
     partial=[],
     shrink=dict(head_words=1, sep=";"),
-    chunk=1500,
+    chunk=3000,
 )
 
 PROPS["C18"] = dict(
@@ -160,7 +163,10 @@ PROPS["C06"] = dict(
         "no speculative execution policy (single fiber); no client-side request timeout (the timeout only cuts a history short)",
         "the retry policy is one of DefaultRetryPolicy, DowngradingConsistencyRetryPolicy, FallthroughRetryPolicy",
     ],
-    partial=[],
+    partial=[
+        "DESIGN X(c) (thorough tier: the same histories injected end-to-end by the mock cluster, counting QUERY/EXECUTE/BATCH frames) is not built: the execution loop is tied at RequestExecutionParams::run_request_no_side_effects with a scripted run_request_once, so 'one run_request_once call = one request frame' is C14's/C09's subject, not re-checked here",
+    ],
+    explanation="dec cases: exhaustive decision tables (112 error classes with concrete boundary field values x idempotence x 11 consistencies x every session state reachable by flag-setting histories of length <= 3 (default) / <= 2 + sampled 3 (downgrading; all of length 3 in the thorough tier)) against the real RetrySession objects, plus random histories of length <= 7. run cases: the real run_request_no_side_effects over synthetic targets (plans of 0..5 targets incl. targets without a connection): exhaustive outcome sequences of length <= 2 (thorough 3) over a 14-letter alphabet on all plans of length <= 3, directed same-error-forever and flag-order histories, random histories of length <= plan + 3; the retry policy is wrapped in a recording policy, the oracle checks the property text on the attempt log (re-send of a non-idempotent request only after a proof error, default/serial <= 1 attempt, attempts <= plan + 2/1/0, attempts = 1 + retry decisions unless the plan ran out, target and consistency of every attempt as decided, session consulted with the right error/idempotence/consistency, one session). runx cases: the same loop under a scripted test RetryPolicy so that every decision arm is driven with every consistency (no built-in policy returns RetryNextTarget(Some)). A scratch-copy mutation self-test (24 seeded changes to default.rs / downgrading_consistency.rs / execution.rs) was detected 24/24 (20 by the oracle with a replayable case, 4 behaviour changes that do not violate the property text by the model diff).",
     shrink=dict(head_words=3, sep=";"),
     chunk=6000,
 )
@@ -264,27 +270,28 @@ PROPS["C08"] = dict(
 )
 
 PROPS["C01"] = dict(
-    level_text="Theorems (Props/C01.lean) prove, for every CQL type (natives, list/set/map, tuple, UDT, fixed- and variable-width vector, arbitrarily nested), every value and every output buffer, that the placeholder/back-patch serializer (encImpl) appends exactly the bytes of the CQL v4 definition length++content (encSpec) and fails with the same error kind; that null/unset/empty cells are ff ff ff ff / ff ff ff fe / 00 00 00 00; that content above i32::MAX bytes is SizeOverflow; that zig-zag + vint round-trip for every i64 and every continuation; and the round trip decVal(encSpec v) = pad v on the decidable domain wfVal. The model is tied to serialize/value.rs, writers.rs, deserialize/value.rs, frame_slice.rs, frame/types.rs by a differential run (dynamic CqlValue over all types, ~60 typed Rust carriers, malformed decoder input) with an oracle that is independent of the model (own protocol encoder + decode(encode v) == pad v).",
-    level_note="Trusted: Lean kernel + {propext, Classical.choice, Quot.sound}; hand-written models Model/Vint.lean, Model/Cql.lean, Model/Codec.lean (tie = differential harness on the public API of scylla-cql-core, no hook). UTF-8 validity is a parameter `u` of the decoder model (the driver uses Lean's ByteArray.validateUTF8). Four shapes on which the current tree violates the round trip are known findings F1, F2, F8, F9 (counterexample theorems + corpus witnesses).",
+    level_text="Theorems (Props/C01.lean) prove, for every CQL type (natives, list/set/map, tuple, UDT, fixed- and variable-width vector, arbitrarily nested), every value and every output buffer, that the placeholder/back-patch serializer (encImpl) appends exactly the bytes of the CQL v4 definition length++content (encSpec) and fails with the same error kind; that null/unset/empty cells are ff ff ff ff / ff ff ff fe / 00 00 00 00; that content above i32::MAX bytes is SizeOverflow; that zig-zag + vint round-trip for every i64 and every continuation; the round trip decVal(encSpec v) = pad v on the decidable domain wfVal, encode totality on that domain (only SizeOverflow/TooManyElements can fail), and carrier_factor: every typed carrier's own serializer (scalars, Option, MaybeUnset, MaybeEmpty, Vec, sets, maps, tuples, CqlValue, nested) equals the dynamic serializer of its embedding. The model is tied to serialize/value.rs, writers.rs, deserialize/value.rs, frame_slice.rs, frame/types.rs by a differential run (dynamic CqlValue over all types, ~80 typed Rust carriers incl. chrono/time/num-bigint/bigdecimal/secrecy, malformed decoder input) with an oracle that is independent of the model (own protocol encoder + decode(encode v) == pad v).",
+    level_note="Trusted: Lean kernel + {propext, Classical.choice, Quot.sound}; hand-written models Model/Vint.lean, Model/Cql.lean, Model/Codec.lean (tie = differential harness on the public API of scylla-cql-core, no hook). UTF-8 validity is a parameter `u` of the decoder model (the driver uses Lean's ByteArray.validateUTF8). Three shapes on which the current tree violates the round trip are known findings C01-F1, C01-F2, C01-F9 (counterexample theorems + corpus witnesses); C01-F8 was repaired in /repo (808d80c) and is a regression case.",
     lean_modules=["ScyllaVerif.Props.C01"],
     rule="case = (kind dyn|carrier|carrierset|dec, CQL type, value or cell bytes); distinct case lines whose implementation output is not an error line count as non-trivial",
     trivial=lambda c, o: o.startswith("err ") or o == "bad-case",
-    out_kind=lambda o: ("encode-" + o.split(" ")[1]) if o.startswith("err ") else ("decode-" + o.split(" -> err ")[1] if " -> err " in o else ("roundtrip-ok" if " -> " in o else ("cell" if o[:1] in "0123456789abcdef" else o.split(" ")[0]))),
+    out_kind=lambda o: ("err-" + o.split(" ")[1]) if o.startswith("err ") else ("decode-" + o.split(" -> err ")[1] if " -> err " in o else ("roundtrip-ok" if " -> " in o else ("cell" if o[:1] in "0123456789abcdef" else o.split(" ")[0]))),
     chunk=2500,
     trusted=[
         "Model/Codec.lean transcribes serialize/value.rs:93-706,750-1150, serialize/writers.rs:103-218, deserialize/value.rs:67-248,296-800,923-1593,1748-2092, deserialize/frame_slice.rs:151-195, frame/types.rs:174-218; Model/Vint.lean transcribes frame/types.rs:255-305",
         "u64::leading_zeros modelled as 64 - bit length (Nat.log2); u8::leading_ones as a comparison chain proved equal to the bitwise count (leadingOnes8_spec)",
         "error values are compared as kinds (innermost kind of the Rust error chain)",
-        "typed Rust carriers are tied by the differential run after embedding the Rust value into the model's CqlVal (harness/src/c01/carrier.rs); chrono/time/num-bigint/bigdecimal/secrecy carriers are not exercised (their crates are not dependencies of the harness)",
+        "typed Rust carriers: Model/TypedCarrier.lean transcribes the typed SerializeValue impls (value.rs:93-621, 847-930) and carrier_factor reduces them to encImpl of the embedding; the harness rebuilds each Rust value from its embedding (harness/src/c01/carrier.rs) and compares bytes with the model and the typed decode with the original value",
+        "chrono/time/num-bigint/bigdecimal/secrecy carriers are differential-only (harness/src/c01/external.rs): their conversions to the core carriers are not modelled; value ranges are restricted to what the external types can represent",
     ],
     assumptions=[
         "round trip domain wfVal: value has the shape of the type; text is UTF-8, ascii is ASCII; time in 0..=86399999999999; varint has at least one byte; tuple/UDT types have at least one field, vector dimension > 0 (no such CQL types exist otherwise); UDT type field names distinct and every value field named in the type",
         "cells above i32::MAX bytes are covered by theorems only (not by the differential run)",
     ],
     partial=[
-        "roundtrip_partial / roundtrip_cell_partial: the full round-trip statement (every value with the shape of the type) is false of the current tree on four shapes, each with a proved counterexample theorem and a corpus witness replayed on the real code: F1 zero-field tuple value for a non-empty tuple type (roundtrip_counterexample), F2 null/unset element directly inside a vector (carrier_counterexample), F8 zero-length last element of a variable-width vector (vector_trailing_empty_counterexample), F9 `empty` element of a fixed-width vector (vector_empty_element_counterexample); wfVal excludes exactly these",
-        "typed carriers: carrier_factor is not a Lean theorem - the embedding of each Rust carrier into CqlVal lives in the harness (harness/src/c01/carrier.rs) and is tied differentially (bytes vs model, typed decode vs original value)",
-        "not proved: that every wfVal value has a defined encoding below the size limit (encode totality); the harness oracle checks it on every in-domain case",
+        "roundtrip_partial / roundtrip_cell_partial: the full round-trip statement (every value with the shape of the type) is false of the current tree on three shapes, each with a proved counterexample theorem and a corpus witness replayed on the real code: C01-F1 zero-field tuple value for a non-empty tuple type (roundtrip_counterexample), C01-F2 null/unset element directly inside a vector (carrier_counterexample), C01-F9 `empty` element of a fixed-width vector (vector_empty_element_counterexample); wfVal excludes exactly these (and non-CQL degenerate types)",
+        "carrier_factor covers serialization; the typed DeserializeValue impls are not modelled in Lean (typed decode == original value is checked by the harness oracle on every carrier case)",
+        "cells above i32::MAX bytes: error branch proved (size_overflow_*, encode_total), not exercised by the differential run",
     ],
 )
 
@@ -337,4 +344,194 @@ PROPS["C04"] = dict(
     ],
     chunk=3000,
     shrink=dict(head_words=1, sep=";"),
+)
+
+
+def _c07_out_kind(o):
+    if not o.startswith("rows="):
+        return o.split(" ", 1)[0]
+    w = o.split(" ")
+    rows = 0 if w[0] == "rows=-" else w[0].count(",") + 1
+    fin = w[1][4:]
+    reqs = 0 if w[2] == "log=-" else w[2].count(",") + 1
+    rb = "0" if rows == 0 else "1-6" if rows <= 6 else "7-50" if rows <= 50 else "51-200"
+    qb = "1" if reqs == 1 else "2-4" if reqs <= 4 else "5-20" if reqs <= 20 else "21+"
+    return "fin=%s rows=%s requests=%s" % (fin, rb, qb)
+
+
+PROPS["C07"] = dict(
+    level_text="WORK IN PROGRESS",
+    level_note="WORK IN PROGRESS",
+    lean_modules=["ScyllaVerif.Props.C07"],
+    rule="case = (skip-metadata flag, consumer behaviour, page script: rows per page, paging state returned, faults injected before the page); distinct case lines whose implementation output shows at least two page requests count as non-trivial",
+    trivial=lambda c, o: "," not in o.split("log=")[-1],
+    out_kind=_c07_out_kind,
+    trusted=[],
+    assumptions=[],
+    partial=[],
+    shrink=dict(head_words=3, sep=" "),
+    chunk=450,
+)
+
+
+def _c14_out_kind(o):
+    if o in ("bad-case", "PANIC"):
+        return o
+    ks = []
+    for k, name in (("<unprepared", "unprepared"), ("meta+", "metadata-changed"), ("<rows:nometa", "cached-decode"), ("RepreparedIdChanged", "id-changed"),
+                    ("RepreparedIdMissingInBatch", "id-missing"), ("BATCH", "batch"), ("DbError:9472", "unprepared-visible"), ("r=ERR", "decode-error"), ("HANG", "HANG")):
+        if k in o:
+            ks.append(name)
+    return "+".join(ks) if ks else "plain"
+
+
+PROPS["C14"] = dict(
+    level_text="Theorems (Props/C14.lean) over a small-step model of the driver's prepared-statement handling (any number of callers sharing statement objects, any number of nodes, any interleaving of request building / node answering / response handling / node events, of any length). Driver part, for EVERY state and response, no assumption on the server: unprepared_transparent (first answer UNPREPARED => PREPARE of the same text to the same node; when its PREPARED answer with the same id arrives, the same EXECUTE - id, values, consistency, timestamp, page size, paging state; only skip flag / presented metadata id recomputed - to the same node; its answer is what the caller sees), reprepare_id_mismatch_is_error (+ batch form; nothing sent, nothing changed), execute_carries_statement_id (any EXECUTE put on the wire by any step carries the immutable id of its operation's statement object), batch_unknown_id_is_error, batch_known_id_reprepares_and_resends (identical frame), decode_metadata_used (server metadata if sent, else the metadata cached for this request = current metadata at build time, else empty), next_execution_presents_latest_id (incl. the zero-column rule: empty id + metadata requested), nonempty_never_replaced_by_empty, reprepare_ok (exact update rule), frame lemmas other_steps_keep_caller / statement_identity_immutable lifting them to all interleavings. End to end, by an invariant proved for all histories (inv_exec) under the explicit server assumption: decode_metadata_faithful (whenever a node with the extension omits the metadata, the metadata cached for that request has exactly the columns the node encodes the rows under) and noext_current_is_announced_at_preparation (without the extension the current metadata stays the one announced by the creating PREPARED). The model is tied to connection.rs / prepared.rs / result.rs by a differential run of the real Connection::{prepare, execute_raw_with_consistency, batch_with_consistency} against scripted CQL nodes under a deterministic frame-level scheduler (exhaustive sequential histories, node events inside an operation, random concurrent multi-node histories) with a model-independent oracle.",
+    level_note="Trusted: Lean kernel + {propext, Classical.choice, Quot.sound}; hand-written model Model/Prepared.lean (tie = differential harness through the cfg(scylla_verif) pass-through VerifConn). The ABSTRACT SERVER (Model/Prepared.lean `serve`/`applyEvent`, hypotheses NodeOK/EventOK: a node's result-metadata id determines its columns, ids are non-empty, metadata + new id sent iff the presented id differs, NO_METADATA iff skip requested) is an assumption about ScyllaDB, not proved; the driver theorems do not use it. Atomicity: one load of the shared metadata per request build, load+store per response handling are single steps (true on one thread; for concurrent stores the invariants only need that every stored value was announced). Not covered: timestamp generator draw (explicit statement timestamps are), tracing, tablets payload, the session-level caching layer, QueryPager (C07).",
+    lean_modules=["ScyllaVerif.Props.C14"],
+    rule="case = (nodes with/without the metadata-id extension, statements with their PREPARED announcement kind and initial columns, schedule of caller steps and node events); distinct case lines in which at least one request was answered by a node (a `<...` token in the output) count as non-trivial",
+    trivial=lambda c, o: "<" not in o,
+    out_kind=_c14_out_kind,
+    trusted=[
+        "Model/Prepared.lean transcribes connection.rs:645-743 (prepare_raw/prepare/reprepare), 938-972 (handle_result_metadata_new_id), 974-1044 (calculate_cached_metadata_params), 1046-1148 (execute_raw_with_consistency), 1177-1246 (batch_with_consistency loop), prepared.rs:211-280, 567-579 (shared immutable id/text, ArcSwap current metadata), result.rs:758-805, 810-852, 901-958, 1015-1053 (which metadata decodes the rows; METADATA_CHANGED honoured only with the extension; NO_METADATA+METADATA_CHANGED is a parse error)",
+        "harness/src/c14.rs: own scripted CQL v4 nodes (frame codec of harness/src/mocknode.rs, written from the spec), each caller on its own connections, every request held until the schedule lets the node consume it and every response held until the schedule delivers it; the server logic there (NodeState::answer) is written independently of the Lean `serve` and both are diffed",
+        "typed decoding of cells is modelled only as far as needed to make a wrong column set observable (int = 4 bytes, text = UTF-8; the node never sends 4-byte text cells); the value codec itself is C01",
+        "verif_hooks::connection::VerifConn (pass-through to the crate-private Connection methods; errors mapped to labels)",
+    ],
+    assumptions=[
+        "server assumption (see level_note) for decode_metadata_faithful / inv_exec; a node without the extension never sets METADATA_CHANGED and never sends a metadata id in PREPARED (wire well-formedness)",
+        "without the extension and with use_cached_result_metadata the driver decodes with the columns announced at the creating preparation even after a schema change / re-preparation (documented CQL v4 limitation, prepared.rs:167-198): the oracle there demands only that the columns used were announced by a server for that statement",
+        "a second UNPREPARED in a row (eviction between the re-preparation and the re-sent EXECUTE) is returned to the caller as DbError Unprepared: the EXECUTE path re-sends once (unprepared_transparent: the caller sees the second response); the BATCH path loops without bound",
+    ],
+    partial=[
+        "next_execution_presents_latest_id is a statement about the state right after the response was handled; with concurrent callers an OLDER response decoded with cached metadata and handled later re-installs the older metadata (handle_result_metadata_new_id compares the id of the metadata it decoded with, which may be the stale cached one) - decoding stays faithful (decode_metadata_faithful), the next EXECUTE presents the older id once more and is corrected by the server",
+        "the generator-drawn timestamp (no explicit statement timestamp) is not exercised: connections are opened without a timestamp generator",
+        "execute_iter / QueryPager is not driven here (paged execution = one EXECUTE per page with explicit paging state); the pager is C07",
+    ],
+    shrink=dict(head_words=3, sep=";"),
+    chunk=2500,
+)
+
+
+def _c20_out_kind(o):
+    if o.startswith(("ok ", "err ")) or o in ("ok", "race", "bad-case"):
+        return " ".join(o.split(" ")[:2]) if o.startswith("err") else o.split(" ")[0]
+    toks = o.split(";")
+    kinds = sorted({t.split(":")[0] + (":" + t.split(":")[1] if t.startswith("e:") else "") if t.startswith("e:") else t[:1] for t in toks})
+    return "pool " + "+".join(kinds)
+
+
+PROPS["C20"] = dict(
+    level_text="Theorems (Props/C20.lean, invariants in Proofs/Keyspace.lean) prove: name_valid_iff (VerifiedKeyspaceName::new accepts exactly the strings of 1..48 characters - counted with chars().count() - over [A-Za-z0-9_], ASCII only; empty / too long / illegal character are rejected in that order) and statement_shape (the statement is `USE name` or `USE \"name\"`, nothing else interpolated); the response-name check accepts exactly names equal up to ASCII case; use_keyspace_result answers Ok iff at least one Ok and only broken-connection errors besides (never swallows another error). For the pool refiller as a transition system over {current keyspace, published connections, open futures, setting-keyspace futures, excess, spawned use-keyspace tasks, the server-side keyspace of every connection} and EVERY sequence of events (use-keyspace request | a task's USE on a snapshot connection resolves with any server reply | task finishes | task times out | refill | connection opened on any shard / with any sharder | open failed | setting-keyspace future resolves with any reply | connection breaks | error event handled): publish_only_with_current_keyspace (a connection enters the published list only in a step in which the server has exactly the pool's current keyspace set on it; otherwise it is routed through the setting-keyspace path, where it is private: new_connection_private), published_has_keyspace (when no two requests overlapped and the newest was answered Ok - or with a broken-connection error - every published non-broken connection has that keyspace at the server, in every later state until the next request; the overlap hypothesis is shown necessary by a counterexample), published_has_initial_keyspace (pool created with the session keyspace, e.g. for a new node), success_means_all_acked and ok_answer_sound (no discipline assumed: an Ok answer means every then-published connection acknowledged the USE or is broken). For the cluster worker (requests, fan-out over the known nodes, deliveries to the refillers in any order, all pool events of all nodes, node addition/removal): cluster_pools_inv, new_nodes_inherit (a node created after the worker handled use_keyspace(k) gets a pool whose current keyspace is k), cluster_success_means_all_acked. The model is tied to connection.rs / connection_pool.rs / worker.rs by a differential run: name validation exhaustively over a 12-character alphabet to length 3, every code point to U+017F, boundary lengths with multi-byte characters and random names; one USE exchange on a real connection against a scripted node; a REAL NodeConnectionPool (refiller task included; PerHost(n) and PerShard(1) behind a shard-aware port) driven through scripted histories of use_keyspace calls, server-side connection kills, refills, rejected / mismatching / upper-cased / void / connection-closing USE answers and USE answers held at the node while the next request arrives, compared token by token with the model run to quiescence, with a model-independent oracle at the node.",
+    level_note="Trusted: Lean kernel + {propext, Classical.choice, Quot.sound}; hand-written model Model/Keyspace.lean (tie = differential harness through the cfg(scylla_verif) pass-throughs verify_keyspace_name / VerifConn / VerifPool and a scripted CQL node on a loopback socket). One atomic model event stands for submit+serve of a USE on a connection: connections are FIFO and the abstract server executes a connection's requests in order (so a USE left in flight by a timed-out call is served before any later one). The cluster-worker layer (Session::use_keyspace fan-out, use of node_config.used_keyspace for new nodes) is modelled and proved about, but tied to worker.rs / node.rs / session.rs only by reading (it needs a full Session). Partial: the cluster-level lifting of published_has_keyspace (no two fan-outs overlap => no two pool requests overlap) is stated but not proved; pool/caller scheduling is sampled by the `race` cases (multi-thread runtime, oracle only).",
+    lean_modules=["ScyllaVerif.Props.C20"],
+    rule="case = one candidate name (name), one USE exchange on a real connection (resp), one scripted history of a real connection pool against the scripted node (pool: deterministic, compared token by token; race: concurrent, judged by the oracle at the node only); distinct case lines count as non-trivial unless the output is bad-case or race",
+    trivial=lambda c, o: o in ("bad-case", "race"),
+    out_kind=_c20_out_kind,
+    trusted=[
+        "Model/Keyspace.lean transcribes connection.rs:2452-2511 (VerifiedKeyspaceName), 1296-1341 (use_keyspace, verify_use_keyspace_result), connection_pool.rs:632-741 (run: one select! arm = one event), 862-1035 (start_filling, handle_ready_connection), 1095-1125 (maybe_reshard), 1210-1275 (remove_connection), 1282-1358 (use_keyspace task, start_setting_keyspace_for_connection), cluster/worker.rs:348-390, 398-470, 767-797, cluster/node.rs:285-293",
+        "shared_conns = conns at event granularity (update_shared_conns runs in the same select! arm as every change of conns); PoolSize arithmetic (can_be_accepted, is_full, excess limit) is modelled, block_advanced_shard_awareness / metrics / connectivity events are not (no influence on keyspaces)",
+        "abstract server: executes the requests of one connection in order; `USE k` either sets k and says so (name equal up to ASCII case), sets another keyspace and says so, or fails leaving the keyspace unchanged; str::eq_ignore_ascii_case modelled on characters",
+        "the scripted node of harness/src/c20.rs (own accept loop, frame codec of mocknode.rs written from the protocol spec); a node-side `hold` of USE answers replaces timing in the deterministic pool cases",
+        "Drive/C20.lean runs the model to quiescence after each client step with a fixed schedule; the connection a query lands on (rand) is checked by membership; connection identities are compared up to symmetry (sorted USE histories)",
+    ],
+    assumptions=[
+        "published_has_keyspace: no use-keyspace request arrives at a pool while an earlier one is unanswered (ghost flag `overlap`; the documented usage of Session::use_keyspace); without it only success_means_all_acked holds - counterexample in Props/C20.lean",
+        "a broken connection stays broken (it is leaving the pool); requests routed to it fail, they do not run in another keyspace",
+    ],
+    partial=[
+        "cluster_published_has_keyspace (the per-pool theorem lifted through the fan-out: newest Session::use_keyspace answered Ok and no overlap => every published live connection of every known node has k) is stated in Props/C20.lean but not proved; proved instead: cluster_pools_inv, new_nodes_inherit, cluster_success_means_all_acked",
+        "the cluster worker / Session layer is tied to the code by reading only (no Session-level differential run)",
+        "the interleaving of the refiller with callers is a runtime schedule: the theorems cover all event orders of the model, the `pool` cases one canonical order each, the `race` cases sample real ones under the node-level oracle",
+    ],
+    shrink=dict(head_words=4, sep=";"),
+    chunk=1000,
+)
+
+
+def _c05_out_kind(o):
+    if not o.startswith("set="):
+        return o.split(" ", 1)[0]
+    w = o.split(" ")
+    n = 0 if w[0] == "set=-" else w[0].count(",") + 1
+    r = 0 if w[1] == "rep=-" else w[1].count(",") + 1
+    return "plan nodes=%s replicas=%s %s" % (n if n < 6 else "6+", r if r < 4 else "4+", "lwt" if w[2] != "lwt=x" else "non-lwt")
+
+
+PROPS["C05"] = dict(
+    level_text="Theorems (Props/C05.lean) prove, for every cluster (ring with vnodes and duplicate tokens, datacenters, racks, rack-less / datacenter-less nodes, keyspace strategies, every per-node enabled / connected assignment), every DefaultPolicy configuration (token-aware or not; preference none / datacenter / datacenter+rack / inherited from the request; failover permitted or not), every request (token or none, table / keyspace known or not, confirmed-LWT flag, every consistency, request-level preference) and ALL random choices of pick and of fallback (index draws of choose_filtered, rotation offsets, one shuffle per replica group - every permutation is reachable: shuffleWith_surjective): the plan names no host id twice (plan_nodup; so no target twice and no node both with and without a shard), no node rejected by the host filter (plan_excludes_disabled), only nodes of the preferred datacenter when failover is not permitted (plan_stays_in_dc), and every other enabled token-owning node (plan_complete); the class of the nodes - written out as a decision list (classOf_eq): live local-rack replica < live local-datacenter replica < live replica elsewhere < live local-rack node < live local node < live remote node < down-but-enabled local node < down-but-enabled remote node - never decreases along the plan (plan_order, plan_members_classified); the set of nodes does not depend on the random choices (targets_rho_independent); for a request routed as LWT (flag, or consistency SERIAL / LOCAL_SERIAL) the replicas of the plan are, for every random choice, exactly the de-duplicated ring-ordered replica lists (lwt_deterministic, lwt_fallback_deterministic) and each of those lists is a subsequence of the distinct nodes met clockwise from the token (lwt_ring_order); pick always answers a member of fallback of minimal class (pick_spec); the Created -> Picked -> Fallback state machine of Plan::next yields exactly the list the theorems talk about (plan_state_machine); unique_by under the non-transitive target comparator is first-occurrence-per-host-id on the chains the policy builds (fallback_eq_dedup). The model is tied to policies/load_balancing/{default,plan}.rs by a differential run through the public API (DefaultPolicy::builder, LoadBalancingPolicy::{pick,fallback}, Plan::new) on clusters built by ClusterState::new, 20-40 sampled plans per configuration, with a brute-force oracle written from the property statement.",
+    level_note="Trusted: Lean kernel + {propext, Classical.choice, Quot.sound}; hand-written model Model/Plan.lean on top of the C04 models (tie = differential harness; the thread RNG is not controlled, so the correspondence is MEMBERSHIP: the model prints the rho-independent node set / replica set / LWT replica order itself, compared exactly, and decides for every observed pick / fallback / plan whether some random choice of the model produces it - group by group: exact order, one of the rotations, or any permutation for a shuffled replica group). Latency awareness is off (not modelled). Hook nodes are pool-less: every shard is 0, only whether the policy supplied a shard is observed; with_random_shard_if_unknown is not modelled. WF hypothesis of the theorems: locator as ReplicaLocator::new builds it (ring sorted), NTS maps with distinct keys, distinct host ids in the ring.",
+    lean_modules=["ScyllaVerif.Props.C05"],
+    rule="case = (topology with per-node enabled/connected flags, keyspace strategies, policy configuration, request, number of sampled plans); distinct case lines whose plan is non-empty count as non-trivial",
+    trivial=lambda c, o: o.startswith("set=- ") or o in ("bad-case", "PANIC"),
+    out_kind=_c05_out_kind,
+    trusted=[
+        "Model/Plan.lean transcribes default.rs:145-316 (pick), 318-541 (fallback: the eight chained iterators, DefaultPolicyTargetComparator, unique_by), 580-618, 622-907 (routing_info, preferred_node_set, filtered_replicas, pick_replica / pick_first_replica / pick_random_replica, maybe_shuffled_replicas, randomly_rotated_nodes, pick_node, round_robin_nodes, shuffle, is_alive, is_datacenter_failover_possible), 1141-1172 (ProcessedRoutingInfo, TokenWithStrategy), plan.rs:8-157 (PlanState, Plan::next), mod.rs:24-99 (RoutingInfo, should_route_as_lwt), locator/mod.rs:316-331 (choose_filtered), cluster/node.rs:225-255 (is_connected / is_enabled: alive = enabled and connected)",
+        "itertools::unique_by keeps an element iff no kept element has an equal key (HashMap keyed by the comparator: Hash by host id, Eq by the comparator); rand: random_range(0..len) is some index < len, SliceRandom::shuffle some permutation, IteratorRandom::choose some element - all explicit arguments (RhoPick, RhoFb) over which the theorems quantify",
+        "fixed_seed (shuffling disabled) only determines WHICH random choices are made; it is exercised by the harness and covered by the quantification over all choices",
+        "Drive/C05.lean (checker mode) derives the admissible rotations / groups from the model's own fallbackGroups / pick evaluated at every offset; the replica placement inside it is the C04 model (Model/Replicas.lean), tied separately by C04's differential run",
+        "the harness oracle uses its own brute-force transcription of SimpleStrategy / NetworkTopologyStrategy placement (from the C04 property statement) and its own class function (coarser than classOf: replica rack / datacenter / remote, other live, down), independent of the Lean model",
+    ],
+    assumptions=[
+        "WF cl: cl.loc = locOf r S with r sorted by token (ReplicaLocator::new, C04.ring_sorted); NTS replication maps of the keyspaces have distinct datacenter keys (HashMap); ring nodes with equal host id are equal (known_nodes is keyed by host id) - all three are established by ClusterState::new and exhibited by a concrete example in Props/C05.lean",
+        "latency awareness disabled (pick_predicate = is_alive, no wrapping of the fallback iterator); no tablets (the hook's keyspaces are vnode based: C15/C12 cover tablets)",
+        "the code on the current tree has no consistency-dependent failover rule: is_datacenter_failover_possible = preferred datacenter set and permit_dc_failover; the model follows the code",
+    ],
+    partial=[
+        "targets_rho_independent is stated for the set of NODES (the shard marking of a node is determined by its class: plan_members_classified / the membership checker compares the marks on every run)",
+        "the random shard Plan substitutes for a missing one (with_random_shard_if_unknown) is not modelled: hook nodes have no sharder (C11/C12 cover shards)",
+        "the oracle's order classes are the coarse ones of the property statement; the finer order among non-replica live nodes (local rack < local < remote) and among down nodes is proved (plan_order) and checked by the membership checker, a violation there is reported as a model/implementation disagreement",
+    ],
+    shrink=dict(head_words=1, sep=";"),
+    chunk=1500,
+)
+
+PROPS["C10"] = dict(
+    level_text="Theorems (Props/C10.lean) prove for every reachable state of the connection model (every event history and in-flight set): once the router ends (reader I/O or header error, `Missing` lookup, writer error, orphan threshold, keep-alive timeout = the abstract event `break_`) no caller is left waiting - a registered one holds the connection error, a queued or parked one ChannelError; a request submitted afterwards fails immediately; nobody is handed a response after the break; a frame on a stream nobody waits on breaks the connection; and `cut_never_partial`: reading any prefix of any encoded response-frame sequence yields exactly the first n frames and then a cut-in-header / cut-in-body error unless the cut is on the boundary - never a truncated, foreign or bad-header result. Tied to the code by a differential run: `read_response_frame` over in-memory readers cut at every offset (plus garbage headers, bad versions, unknown opcodes), and the REAL router over an in-memory stream with N requests in flight and the faults FIN / garbage header / bad version / cut response stream at every offset / unsolicited stream id / silent stall with keep-alive on (tokio paused clock), with the oracle: every request completes, none hangs, no foreign or partial body, a later submit fails at once.",
+    level_note="Trusted: Lean kernel + {propext, Classical.choice, Quot.sound}; models Model/Conn.lean, Model/FrameStream.lean tied by the differential harness (hooks RawConnection). PARTIAL by nature: the theorems show the state machine leaves no waiter once the break event occurs; that the event occurs promptly in real time (tokio timers, OS socket errors such as RST, pool refill, retries elsewhere) is outside the model - the keep-alive timer is the abstract `break_ keepaliveTimeout` event, observed by the end-to-end run only under tokio's virtual clock (a test). Pool membership / retry policy are not modelled.",
+    lean_modules=["ScyllaVerif.Props.C10"],
+    rule="case = one cut byte stream (`frames`) or one fault schedule (`conn`, `ka`); distinct case lines whose implementation output is not the empty clean stream count as non-trivial",
+    trivial=lambda c, o: o == "- | clean",
+    out_kind=lambda o: ("broken:" + o.rsplit("broken=", 1)[1]) if "broken=" in o else ("frames:" + o.rsplit("| ", 1)[1].split(":")[0] if "| " in o else o[:12]),
+    trusted=[
+        "Model/FrameStream.lean transcribes scylla-cql/src/frame/mod.rs:142-190 (whole header first, then version / opcode validation, then exactly `length` body bytes)",
+        "Drive/C02.lean keepaliver mini-model (interval with MissedTickBehavior::Delay, tokio::time::timeout around send_request) - validated differentially under tokio's paused clock",
+        "RST and other OS-level socket errors are represented by the same reader/writer error path as FIN (`break_ frameHeaderParseError` / `writeError`)",
+    ],
+    assumptions=[],
+    partial=[
+        "promptness in real time, OS socket faults (RST), pool removal/refill and retry-elsewhere are observed only by the virtual-time end-to-end run or not at all; the theorem covers the state machine after the abstract break event",
+    ],
+    shrink=dict(head_words=2, sep=";"),
+    chunk=2000,
+)
+
+
+def _c17_out_kind(o):
+    if o.startswith("ok "):
+        return "ser ok"
+    if o == "ok":
+        return "tc ok"
+    if o.startswith("err tc ") or o.startswith("err ser "):
+        w = o.split(" ")
+        return "ser err " + w[1] + " " + w[2].split("/")[-1] + (" nested" if "/" in w[2] else "")
+    if o.startswith("err "):
+        return "tc err " + o.split(" ")[1].split("/")[-1] + (" nested" if "/" in o else "")
+    if " = cells=" in o:
+        return "row" + (" rollback" if "err(" in o else "") + (" toomany" if "toomany" in o else "")
+    return o[:16]
+
+
+PROPS["C17"] = dict(
+    level_text="(being built) Theorems (Props/C17.lean) over Model/Carrier.lean (acceptance relations carrier x column type for serialize and for type_check, serializers with the buffer threaded through also on failure) and Model/Row.lean (SerializedValues::add_value with rollback); differential run: ~100 concrete Rust carrier types x column types of nesting <= 2 for SerializeValue::serialize and DeserializeValue::type_check, row-level type_check, add_value sequences with failing values of every kind.",
+    level_note="Trusted: Lean kernel + {propext, Classical.choice, Quot.sound}; hand-written models Model/Carrier.lean, Model/Row.lean tied by the differential harness (public API of scylla-cql-core).",
+    lean_modules=["ScyllaVerif.Props.C17"],
+    rule="case = (Rust carrier type, representative value, column type) for serialize / type_check, or one add_value sequence; distinct case lines count as non-trivial unless the output is bad-case",
+    trivial=lambda c, o: o.startswith("bad-case"),
+    out_kind=_c17_out_kind,
+    trusted=[],
+    assumptions=[],
+    partial=[],
+    shrink=dict(head_words=1, sep=" ; "),
+    chunk=20000,
 )
